@@ -125,6 +125,8 @@ def _packagings(v):
            "zero_d_float32": np.array(v, dtype=np.float32)}
     if float(v) == int(v):
         out.update({"python_int": int(v), "np_int64": np.int64(int(v)), "np_int32": np.int32(int(v)), "zero_d_int_array": np.array(int(v))})
+        if v >= 0:       # unsigned packagings (np.uint8 is left out: NumPy itself evaluates cos(np.uint8(1)) in float16)
+            out.update({"np_uint32": np.uint32(int(v)), "np_uint16": np.uint16(int(v)), "zero_d_uint32_array": np.array(int(v), dtype=np.uint32), "np_uint64": np.uint64(int(v))})
     return out
 
 
@@ -196,7 +198,7 @@ def packaging(tier, rng, rep):
     M = [[2, 1], [1, 1]]
     res = {}
     for pname, a in {"nested_list": M, "int_array": np.array(M), "float_array": np.array(M, dtype=float), "float32_array": np.array(M, dtype=np.float32),
-                     "int32_array": np.array(M, dtype=np.int32)}.items():
+                     "int32_array": np.array(M, dtype=np.int32), "uint8_array": np.array(M, dtype=np.uint8), "uint32_array": np.array(M, dtype=np.uint32)}.items():
         inp = {"entry": "sl2_iso", "packaging": pname}
         r = rep.attempt("entry_point_runs", inp, lambda: h.sl2_iso(a).proj_data)
         rep.case(key=("sl2_iso", pname), nontrivial=pname != "float_array")
@@ -234,6 +236,30 @@ def packaging(tier, rng, rep):
                 if r is not None and floating(r, f"Point.{qname}", inp):
                     res[pname] = np.asarray(r, dtype=float)
             compare(res, f"Point.{qname} on {cname}")
+    # coordinates in the other models and tangent vectors given with integer values (nested lists of Python ints, int arrays)
+    model_inputs = {"halfspace_2d": ("halfspace", [0, 2]), "halfspace_2d_b": ("halfspace", [3, 1]), "halfspace_3d": ("halfspace", [1, -2, 3]), "poincare_origin": ("poincare", [0, 0]),
+                    "klein_origin": ("klein", [0, 0, 0]), "hyperboloid_origin": ("hyperboloid", [1, 0, 0])}
+    for cname, (mod_, x) in model_inputs.items():
+        for out_model in ("klein", "halfspace", "poincare", "hyperboloid"):
+            res = {}
+            for pname, cv in {"float_array": lambda v: np.array(v, dtype=float), "nested_list_of_ints": lambda v: list(v), "int64_array": lambda v: np.array(v, dtype=np.int64),
+                              "int32_array": lambda v: np.array(v, dtype=np.int32), "list_of_floats": lambda v: [float(c) for c in v]}.items():
+                inp = {"entry": f"Point(model={mod_}).coords({out_model})", "coordinates": x, "packaging": pname}
+                r = rep.attempt("entry_point_runs", inp, lambda: h.Point(cv(x), model=mod_).coords(out_model))
+                rep.case(key=(cname, out_model, pname), nontrivial=pname != "float_array")
+                if r is not None and floating(r, inp["entry"], inp):
+                    res[pname] = np.asarray(r, dtype=float)
+            compare(res, f"Point({x}, model={mod_}).coords({out_model})")
+    for base, vec in (([2, 1, 0], [0, 0, 1]), ([3, 1, -1], [1, 2, 0]), ([2, 0, 1, 0], [0, 1, 0, 1])):
+        for tt in (0.7, -0.3, 1):
+            res = {}
+            for pname, cv in {"float_array": lambda v: np.array(v, dtype=float), "int64_array": lambda v: np.array(v, dtype=np.int64), "int32_array": lambda v: np.array(v, dtype=np.int32)}.items():
+                inp = {"entry": "TangentVector.point_along", "point": base, "vector": vec, "t": tt, "packaging": pname}
+                r = rep.attempt("entry_point_runs", inp, lambda: h.TangentVector(h.Point(cv(base)), cv(vec)).point_along(tt).coords("klein"))
+                rep.case(key=("tv", tuple(base), tt, pname), nontrivial=pname != "float_array")
+                if r is not None and floating(r, "point_along", inp):
+                    res[pname] = np.asarray(r, dtype=float)
+            compare(res, f"TangentVector({base}, {vec}).point_along({tt})")
     for nv in ([0, 1, 2], [1, 2, 2], [0, 1, 1], [0, 2, -1, 1]):
         res = {}
         for pname, cv in {"float_array": lambda v: np.array(v, dtype=float), "nested_list_of_ints": lambda v: list(v), "int64_array": lambda v: np.array(v, dtype=np.int64)}.items():
